@@ -96,3 +96,99 @@ Definition t_step (b : tblock) (c : tcall) : option err * tblock :=
   match c with TAdd x => add_track b x | TAssign v => set_tracks b v end.
 Definition t_run (b : tblock) (cs : list tcall) : tblock :=
   fold_left (fun b c => snd (t_step b c)) cs b.
+
+(* ---------- Part 3: channel-mapped blocks (C15) ----------
+   EMG (tdfEMG.py: _emgMap / _signals), platform calibration (tdfForcePlatformsCalibration.py:
+   _platformMap / _platforms) and platform data (tdfForcePlatformsData.py: _plat_map / _platforms)
+   keep TWO parallel Python lists; the model keeps two lists as well, so that their alignment is a
+   theorem and not an artefact of the representation. *)
+Record cblock := mkCB { c_map : list Z; c_items : list obj }.
+
+Inductive ckind := KEmg | KCal | KDat.
+
+Fixpoint zmax (l : list Z) : Z := match l with [] => 0 | x :: r => Z.max x (zmax r) end.
+Definition next_channel (m : list Z) : Z := match m with [] => 0 | _ => zmax m + 1 end.
+Definition zmem (z : Z) (l : list Z) : bool := existsb (Z.eqb z) l.
+
+Definition wrong_kind_err (k : ckind) : err := match k with KDat => EValue | _ => EType end.
+
+(* add one item, with an explicit channel or an automatic one *)
+Definition c_add1 (k : ckind) (b : cblock) (x : obj) (ch : option Z) : option err * cblock :=
+  if negb (is_item x) then (Some (wrong_kind_err k), b) else
+  match ch with
+  | None => (None, mkCB (c_map b ++ [next_channel (c_map b)]) (c_items b ++ [x]))
+  | Some c => if zmem c (c_map b) then (Some EValue, b)
+              else (None, mkCB (c_map b ++ [c]) (c_items b ++ [x]))
+  end.
+
+Fixpoint remove_nth_l {A} (n : nat) (l : list A) : list A :=
+  match n, l with
+  | _, [] => []
+  | O, _ :: r => r
+  | S n', x :: r => x :: remove_nth_l n' r
+  end.
+
+Definition c_del (b : cblock) (pos : nat) : cblock :=
+  mkCB (remove_nth_l pos (c_map b)) (remove_nth_l pos (c_items b)).
+
+Fixpoint find_index {A} (p : A -> bool) (l : list A) : option nat :=
+  match l with
+  | [] => None
+  | x :: r => if p x then Some O else option_map S (find_index p r)
+  end.
+
+(* EMG.removeSignal(label): the first signal carrying the label *)
+Definition c_remove_label (b : cblock) (s : list Z) : option err * cblock :=
+  match find_index (fun t => zs_eqb (o_label t) s) (c_items b) with
+  | Some pos => (None, c_del b pos)
+  | None => (Some EKey, b)
+  end.
+
+(* remove_platform(index): `if plat >= len: ValueError`, then `del list[index]` (Python semantics:
+   negative indices count from the end, IndexError below -len) *)
+Definition c_remove_index (b : cblock) (i : Z) : option err * cblock :=
+  let n := zlength (c_items b) in
+  if n <=? i then (Some EValue, b) else
+  if i <? - n then (Some EIndex, b) else
+  (None, c_del b (Z.to_nat (if i <? 0 then i + n else i))).
+
+(* remove_platform(platform object): the first platform equal to it *)
+Definition c_remove_item (ieq : obj -> obj -> bool) (b : cblock) (x : obj) : option err * cblock :=
+  match find_index (ieq x) (c_items b) with
+  | Some pos => (None, c_del b pos)
+  | None => (Some EValue, b)
+  end.
+
+(* bulk add: one add per element, stopping at the first refusal (what was added stays) *)
+Fixpoint c_add_many (k : ckind) (b : cblock) (xs : list (obj * option Z)) : option err * cblock :=
+  match xs with
+  | [] => (None, b)
+  | (x, ch) :: r => match c_add1 k b x ch with
+                    | (None, b') => c_add_many k b' r
+                    | (Some e, b') => (Some e, b')
+                    end
+  end.
+
+Inductive ccall :=
+| CAdd (x : obj) (ch : option Z)
+| CRemoveLabel (s : list Z)                 (* EMG *)
+| CRemoveIndex (i : Z) | CRemoveItem (x : obj)   (* platform calibration *)
+| CAddMany (xs : list (obj * option Z))     (* add_platforms; the platform-data `platforms = [...]` setter (appends) *)
+| CAssign (xs : list (obj * option Z)).     (* the platform-calibration `platforms = [(channel, platform) ...]` setter:
+                                               both lists are emptied first *)
+
+Definition c_step (k : ckind) (ieq : obj -> obj -> bool) (b : cblock) (c : ccall) : option err * cblock :=
+  match c with
+  | CAdd x ch => c_add1 k b x ch
+  | CRemoveLabel s => c_remove_label b s
+  | CRemoveIndex i => c_remove_index b i
+  | CRemoveItem x => c_remove_item ieq b x
+  | CAddMany xs => c_add_many k b xs
+  | CAssign xs => c_add_many k (mkCB [] []) xs
+  end.
+
+Definition c_run (k : ckind) (ieq : obj -> obj -> bool) (b : cblock) (cs : list ccall) : cblock :=
+  fold_left (fun b c => snd (c_step k ieq b c)) cs b.
+
+(* the (channel, item) pairs iteration yields / encoding emits, in order *)
+Definition c_pairs (b : cblock) : list (Z * obj) := combine (c_map b) (c_items b).
